@@ -271,17 +271,32 @@ def make_engine_provider(sysobj, side, oid_is_path, case_sensitive, filter_event
             if self._vdepth or sysobj.in_user:
                 yield from MockProvider.events(self)
                 return
-            self._fault("events")
+            self._fault("events")        # an events() call fails as a whole, before it delivers anything
             n = 0
             gen = MockProvider.events(self)
+
+            def pull():
+                # what the provider does internally while producing the next event (the filtered flavours walk a
+                # folder that was moved into the root) is not an engine-issued call: no fault is injected there
+                self._vdepth += 1
+                try:
+                    return next(gen, None)
+                finally:
+                    self._vdepth -= 1
             if self.mangle is not None:
-                evs = self.mangle(list(gen))
-                for e in evs:
+                batch = []
+                while True:
+                    e = pull()
+                    if e is None:
+                        break
+                    batch.append(e)
+                for e in self.mangle(batch):
                     yield e
                 return
-            if getattr(self, "flush_held", None):
-                pass
-            for e in gen:
+            while True:
+                e = pull()
+                if e is None:
+                    return
                 yield e
                 n += 1
                 if self.max_events and n >= self.max_events:
@@ -786,6 +801,7 @@ class System:
 
     def smart_request(self, how, path):
         rp = self.names.decode(1, path)
+        self.rec.ev("Req", path=path, how=how)          # the request exists from the moment the application makes the call
         if how == "oid":
             self.in_user = True
             try:
@@ -795,7 +811,7 @@ class System:
             ok = self._app_call("Req", lambda: self.cs.smart_sync_oid(info.oid)) if info else 0
         else:
             ok = self._app_call("Req", lambda: self.cs.smart_sync_path(rp, 1))
-        self.rec.ev("Req", path=path, how=how, ok=ok, post=self.trees())
+        self.rec.ev("ReqEnd", path=path, how=how, ok=ok, post=self.trees())
 
     def smart_unrequest(self, path):
         rp = self.names.decode(1, path)
